@@ -482,5 +482,13 @@ def rule_decoder_entry(ctx):
     de(ctx, 'C02.h')
 
 
+
+def rule_marker_queues(ctx):
+    """C04.j  Queues that carry the end-of-connection marker next to data are read item by item, each item tested
+    before use (rules/msgtransports.py)."""
+    from .msgtransports import rule_marker_queues_read_item_by_item as r
+    r(ctx, 'C04.j')
+
+
 RULES = [('C04.a', rule_a), ('C04.b', rule_b), ('C04.c', rule_c), ('C04.d', rule_d), ('C04.e', rule_e),
-         ('C04.f', rule_f), ('C12.e', rule_g), ('C12.a', rule_h), ('C04.g', rule_i), ('C04.h', rule_j), ('C04.i', rule_k), ('C02.h', rule_decoder_entry)]
+         ('C04.f', rule_f), ('C12.e', rule_g), ('C12.a', rule_h), ('C04.g', rule_i), ('C04.h', rule_j), ('C04.i', rule_k), ('C02.h', rule_decoder_entry), ('C04.j', rule_marker_queues)]
